@@ -347,6 +347,25 @@ impl Valid {
         post: &Snap,
         rv_post: &Report,
     ) {
+        // "terminates within its flip budget", by the work clock rather than by the statistics the
+        // repair reports about itself: with an explicit budget m the plain entry point applies at
+        // most m + 1 flips per attempt (the budget test runs after the flip is counted), whatever it
+        // returns. (The advanced entry point may rebuild, and construction has budgets of its own.)
+        if kind == "repair_delaunay_with_flips"
+            && let Some((_, m)) = ctx.oprec.knobs.iter().find(|(n, _)| n == "repair.max_flips")
+        {
+            let tk = |name: &str| out.tick_kinds.iter().find(|(k, _)| k == name).map_or(0u64, |(_, n)| *n);
+            let (flips, attempts) = (tk("repair.flip"), tk("repair.attempt").max(1));
+            let lim = (*m as u64 + 1) * attempts;
+            let e = ctx.stats.counters.entry("c08.max_permille_of_flip_budget_by_work_clock".into()).or_insert(0);
+            *e = (*e).max(flips * 1000 / lim.max(1));
+            if flips > lim {
+                push_violation(
+                    ctx.violations,
+                    violation("C08", "flip-budget-exceeded", ctx.step, format!("op={kind}|work-clock"), format!("{flips} flips applied in {attempts} attempt(s) under a budget of {m} per attempt (result {}; reported flips_performed {:?})", out.class(), out.flips_performed)),
+                );
+            }
+        }
         if out.kind != OutKind::Ok {
             return;
         }
